@@ -16,8 +16,66 @@ V2000_ATOM = {"x": (0, 10), "y": (10, 20), "z": (20, 30), "symbol": (31, 34), "d
 V2000_BOND = {"111": (0, 3), "222": (3, 6), "ttt": (6, 9)}
 # "M  XXXnn8 aaa vvv ..." : count at 6..9, entry i (0-based): atom at 10+8i .. +3, value at 14+8i .. +3
 V2000_PROP = {"nn8": (6, 9), "entry_offset": 10, "entry_len": 8, "atom": (0, 3), "value": (4, 7)}
+# The same layout with, per field, the columns that a value the format allows can occupy (right-justified numbers with
+# their largest width, the left-justified symbol with two letters): a slice reads field F exactly when it covers all of
+# F's occupied columns and none of another field's -- the blank columns around it make no difference on any valid file.
+# (name, first column, end, first occupied column, end of occupied columns)
+V2000_LAYOUT = {
+    "atom": [("x", 0, 10, 0, 10), ("y", 10, 20, 10, 20), ("z", 20, 30, 20, 30), ("symbol", 31, 34, 31, 33), ("dd", 34, 36, 34, 36), ("ccc", 36, 39, 38, 39),
+             ("sss", 39, 42, 41, 42), ("hhh", 42, 45, 44, 45), ("bbb", 45, 48, 47, 48), ("vvv", 48, 51, 49, 51), ("HHH", 51, 54, 53, 54), ("rrr", 54, 57, 54, 57),
+             ("iii", 57, 60, 57, 60), ("mmm", 60, 63, 60, 63), ("nnn", 63, 66, 65, 66), ("eee", 66, 69, 68, 69)],
+    "bond": [("111", 0, 3, 0, 3), ("222", 3, 6, 3, 6), ("ttt", 6, 9, 8, 9), ("sss", 9, 12, 11, 12), ("xxx", 12, 15, 12, 15), ("rrr", 15, 18, 17, 18), ("ccc", 18, 21, 19, 21)],
+    "counts": [("aaa", 0, 3, 0, 3), ("bbb", 3, 6, 3, 6), ("lll", 6, 9, 7, 9), ("fff", 9, 12, 11, 12), ("ccc", 12, 15, 14, 15), ("sss", 15, 18, 15, 18), ("xxx", 18, 21, 18, 21),
+               ("rrr", 21, 24, 21, 24), ("ppp", 24, 27, 24, 27), ("iii", 27, 30, 27, 30), ("mmm", 30, 33, 30, 33), ("vvvvvv", 33, 39, 33, 39)],
+    # one property line with its first entry; entry k is the same 8 columns further right (M  XXXnn8 aaa vvv)
+    "prop": [("tag", 0, 6, 0, 6), ("nn8", 6, 9, 8, 9), ("atom", 10, 13, 10, 13), ("value", 14, 17, 14, 17), ("next", 18, 21, 18, 21)],
+}
+
+
+def canon_span(kind: str, lo, hi):
+    """the format's span (first column, end) of the one field that the slice lo:hi reads in the sense above, else (lo, hi)"""
+    if not isinstance(lo, int) or not (isinstance(hi, int) or hi is None):
+        return (lo, hi)
+    top = 10 ** 6 if hi is None else hi
+    full = [f for f in V2000_LAYOUT[kind] if lo <= f[3] and f[4] <= top]
+    touched = [f for f in V2000_LAYOUT[kind] if max(lo, f[3]) < min(top, f[4])]
+    if len(full) == 1 and touched == full:
+        return (full[0][1], full[0][2])
+    return (lo, hi)
+
+
+def canon_label(kind: str, label: str) -> str:
+    """the same for a column label 'a:b' of the heap interpretation"""
+    import re as _re
+    m = _re.fullmatch(r"(\d*):(\d*)", label)
+    if not m:
+        return label
+    lo = int(m.group(1)) if m.group(1) else 0
+    hi = int(m.group(2)) if m.group(2) else None
+    a, b = canon_span(kind, lo, hi)
+    return f"{a}:{'' if b is None else b}"
+
+
+# the property-line tags of a V2000 connection table (CTfile, "The Properties Block"); a line-kind test selects the lines
+# of one tag exactly when its text is a prefix of that tag and of no other
+V2000_PROPERTY_TAGS = ["A  ", "V  ", "G  ", "S  SKP", "M  CHG", "M  RAD", "M  ISO", "M  RBC", "M  SUB", "M  UNS", "M  LIN", "M  ALS", "M  APO", "M  AAL", "M  RGP",
+                       "M  LOG", "M  STY", "M  SST", "M  SLB", "M  SCN", "M  SDS", "M  SAL", "M  SBL", "M  SPA", "M  SMT", "M  CRS", "M  SDI", "M  SBV", "M  SDT",
+                       "M  SDD", "M  SCD", "M  SED", "M  PXA", "M  SAP", "M  SCL", "M  SNC", "M  SPL", "M  SBT", "M  $3D", "M  ZZC", "M  REG", "M  END"]
+
+
+def tag_selected_by(prefix: str):
+    """the one property tag whose lines a `startswith(prefix)` test selects, else None"""
+    hits = [t for t in V2000_PROPERTY_TAGS if t.startswith(prefix)]
+    return hits[0] if len(hits) == 1 else None
+
+
 # atom-block charge codes: 0 uncharged, 1 +3, 2 +2, 3 +1, 4 doublet radical, 5 -1, 6 -2, 7 -3
 V2000_CHARGE_CODES = {1: {"chg": 3}, 2: {"chg": 2}, 3: {"chg": 1}, 4: {"rad": 2}, 5: {"chg": -1}, 6: {"chg": -2}, 7: {"chg": -3}}
+
+# every line of a V3000 connection table begins with this (the blank is part of it); a line that ends in `-` is continued
+# on the next line, whose prefix is dropped
+V3000_LINE_PREFIX = "M  V30 "
+V3000_CONTINUATION = "-"
 
 # V3000 atom line: M  V30 index type x y z aamap [keyword=value ...]
 V3000_ATOM_KEYWORDS = ["CHG", "RAD", "CFG", "MASS", "VAL", "HCOUNT", "STBOX", "INVRET", "EXACHG", "SUBST", "UNSAT", "RBCNT",
